@@ -103,7 +103,7 @@ class StartShutdown(Contract):
                 lift(A.f(r0, c)) == ind(c, on) - ind(c, st), lift(b.f(r0)) == 0, lift(S.char_at(ct, r0)) == sym.strlit('S'))))))
             yield ('C06.startdef.bounds_untouched', z3.ForAll([c], z3.Implies(cr, z3.And(lift(u.f(c)) == ctx['u0'].f(c), lift(l.f(c)) == ctx['l0'].f(c)))))
         else:
-            nrows = m0 + (T - 1) + 1 + (T - 1)
+            nrows = m0 + (T - 1) + 1 + T
             yield ('C06.startdef.shape', z3.And(lift(A.nr) == nrows, lift(b.n) == nrows, lift(S.str_len(ct)) == nrows))
             # on[t+1] - on[t] - start[t+1] + shutdown[t+1] = 0
             yield ('C06.startdef.rows', z3.ForAll([t, c], z3.Implies(z3.And(t >= 0, t < T - 1, cr), z3.And(
@@ -113,8 +113,10 @@ class StartShutdown(Contract):
             yield ('C06.startdef.initial', z3.ForAll([c], z3.Implies(cr, z3.And(
                 lift(A.f(r0, c)) == z3.If(init0, ind(c, on) - ind(c, st), ind(c, on) + ind(c, sd)),
                 lift(b.f(r0)) == z3.If(init0, z3.RealVal(0), z3.RealVal(1)), lift(S.char_at(ct, r0)) == sym.strlit('S')))))
-            # a step is not start and shutdown at once
-            yield ('C06.startdef.no_overlap', z3.ForAll([t, c], z3.Implies(z3.And(t >= 0, t < T - 1, cr), z3.And(
+            # NO step is start and shutdown at once (from the statement: a start is flagged exactly at off-to-on transitions -- with
+            # start = shutdown = 1 the transition row on[t] - on[t-1] = start[t] - shutdown[t] would admit a start without a transition);
+            # the last step included (defect D37 of the pinned tree: the rows stopped at T-2)
+            yield ('C06.startdef.no_overlap', z3.ForAll([t, c], z3.Implies(z3.And(t >= 0, t < T, cr), z3.And(
                 lift(A.f(r0 + 1 + t, c)) == ind(c, st + t) + ind(c, sd + t), lift(b.f(r0 + 1 + t)) == 1,
                 lift(S.char_at(ct, r0 + 1 + t)) == sym.strlit('U')))))
             # no shutdown flag in step 0 if not running before / no start flag in step 0 if running before
